@@ -1,6 +1,8 @@
 package props
 
 import (
+	ctlconfig "github.com/jcmoraisjr/haproxy-ingress/pkg/controller/config"
+
 	"encoding/json"
 	"fmt"
 	"strings"
@@ -52,6 +54,21 @@ func c08Table(st *Stats) (*Failure, int) {
 	for _, wwc := range []bool{false, true} {
 		for _, prec := range []bool{false, true} {
 			p := ctlsim.Params{WatchWithoutClass: wwc, ClassPrecedence: prec}
+			// the two switches as the command line gives them to the controller, with and without the deprecated
+			// --ignore-ingress-without-class (documented as ignored since v0.12)
+			for _, deprecated := range []bool{false, true} {
+				cfg, err := cliConfig(func(opt *ctlconfig.Options) {
+					opt.WatchIngressWithoutClass, opt.IngressClassPrecedence, opt.IgnoreIngressWithoutClass = wwc, prec, deprecated
+				})
+				if err != nil {
+					panic(err)
+				}
+				rows++
+				if (cfg.WatchIngressWithoutClass != wwc || cfg.IngressClassPrecedence != prec) && first == nil {
+					first = failf("C08:command-line-switch-lost", "--watch-ingress-without-class=%v --ingress-class-precedence=%v --ignore-ingress-without-class=%v configure the controller with WatchIngressWithoutClass=%v IngressClassPrecedence=%v",
+						wwc, prec, deprecated, cfg.WatchIngressWithoutClass, cfg.IngressClassPrecedence)
+				}
+			}
 			var objs []*world.Obj
 			objs = append(objs,
 				&world.Obj{Kind: world.KIngressClass, Name: world.OurClass, Controller: world.ControllerName},
